@@ -207,6 +207,8 @@ package policy
 //@   use node_sizes, node_list_children, node_string_kind
 //@   retgiven result1 == nil ==> reprs(result0, node) == reprsDef(result0, node)
 //@   ensures [C14] faithful: result1 == nil ==> reprs(result0, node)
+//@   // the selector of a leaf statement is a reading of the node's second element (selector.Parse's contract carried through)
+//@   ensures [C14] selector: result1 == nil ==> (result0 is equality ==> selReads(result0.(equality).selector, nodeStr(listElem(node, 1)))) && (result0 is wildcard ==> selReads(result0.(wildcard).selector, nodeStr(listElem(node, 1)))) && (result0 is quantifier ==> selReads(result0.(quantifier).selector, nodeStr(listElem(node, 1))))
 //@   ensures [C14] shape: result1 == nil ==> result0 != nil && nodeKind(node) == datamodel.Kind_List && (listLen(node) == 2 || listLen(node) == 3) && stmtKind(result0) == nodeStr(listElem(node, 0))
 //@   ensures [C14] rejected: result1 != nil ==> result0 == nil
 //@   ensures [C09] total: true
